@@ -460,6 +460,12 @@ func runC19(c *mon.Ctx) {
 			n = 3 + r.IntN(4)
 		}
 		ft := c19makeFont(r, n, kind, false)
+		if go_ := ft.f.Outlines.(*glyf.Outlines); go_.Names != nil && r.IntN(5) == 0 {
+			// names for the first glyphs only (a names list may be shorter than
+			// the glyph list): the rest is written by character or by number
+			go_.Names = go_.Names[:1+r.IntN(n-1)]
+			k.Class("font:short-names-list")
+		}
 		nl := 1 + r.IntN(4)
 		o := otl.Opts{DSL: true, MaxGID: n - 1, NumLookups: nl, Size: otl.Tiny}
 		if r.IntN(3) == 0 {
@@ -742,5 +748,5 @@ func runC19(c *mon.Ctx) {
 		"gomaxprocs:1", "gomaxprocs:2", "gomaxprocs:4", "gomaxprocs:16", "outcome:error", "outcome:lookups")
 	c.Require(req...)
 	c.Require("large:gsub4", "large:gsub2", "large:gsub1", "large:more-than-12-rules")
-	c.Require("font-changed:cmap-permuted", "font-changed:cmap-removed", "font-changed:glyphs-renamed", "font-changed:names-removed")
+	c.Require("font:short-names-list", "font-changed:cmap-permuted", "font-changed:cmap-removed", "font-changed:glyphs-renamed", "font-changed:names-removed")
 }
